@@ -80,6 +80,17 @@ def malformations(typ):
 
     def add(name, fn):
         out.append((name, fn))
+    # the security block's own block-number item is not a number (null, an array) and the target is altered:
+    # a block the agent cannot even name must not make the alteration go unnoticed
+    def odd_number(value):
+        def fn(b):
+            b['blocks'][sec_index(b, typ)]['num'] = value
+            tgt = [x for x in b['blocks'] if x['num'] == 1][0]
+            tgt['data'] = bytes(tgt['data'][:-1]) + bytes([(tgt['data'][-1] if tgt['data'] else 0) ^ 0x55]) if tgt['data'] else b'\x55'
+        return fn
+    add('security-block-number-null+target-altered', odd_number(None))
+    add('security-block-number-array+target-altered', odd_number([]))
+    add('security-block-number-text+target-altered', odd_number('4'))
     add('unknown-context', lambda b: edit_asb(b, typ, lambda a: a.update(context=99)))
     add('target-absent', lambda b: edit_asb(b, typ, lambda a: a.update(targets=[9])))
     add('extra-target-without-result', lambda b: edit_asb(b, typ, lambda a: a.update(targets=a['targets'] + [3])))
@@ -347,6 +358,29 @@ def run_block(params, known):
                 take(found)
                 count += 2
                 keys.add('bib/scope-%s/%s' % (sname, accept))
+    if block == 'bib':
+        # additional protected headers (parameter 3) are bound as the octets that were sent: a block whose
+        # parameter 3 is encoded in another way than a sorting / shortest-form encoder would choose verifies,
+        # and re-encoding that parameter on the way (same map, other octets) breaks it
+        forms = {'shortest': b'\xa1\x03\x00', 'indefinite-map': b'\xbf\x03\x00\xff', 'long-head': b'\xa1\x18\x03\x00', 'empty-map': b'\xa0'}
+        for (fname, octets) in forms.items():
+            plainb = c03.plain_bundle()
+            good = A.add_bib(plainb, [1], KEY, KID, SRC, scope={0: 1, -1: 1}, num=4, protected_params=octets)
+            for accept in (False, True):
+                label = dict(block=block, malformation='none', report=True, additional_protected=fname)
+                (found, dlv) = judge_case(label, B.encode(good), 'right', accept, 'deliver', True, plainb['blocks'][-1]['data'])
+                take(found)
+                count += 1
+                keys.add('bib/param3-%s/%s' % (fname, accept))
+                for (oname, other) in forms.items():
+                    if other == octets or (fname == 'empty-map') != (oname == 'empty-map'):
+                        continue
+                    swapped = copy_bundle(good)
+                    edit_asb(swapped, B.T_BIB, lambda a: a.update(params=[(pid, (other if pid == 3 else val)) for (pid, val) in a['params']]))
+                    label = dict(block=block, malformation='additional-protected-reencoded-%s-to-%s' % (fname, oname), report=True)
+                    (found, dlv) = judge_case(label, B.encode(swapped), 'right', accept, 'reject', True, plainb['blocks'][-1]['data'])
+                    take(found)
+                    count += 1
     if block == 'bcb':
         # a bundle whose security blocks all verify is delivered: confidentiality blocks over empty
         # and one-octet contents, one and two targets
